@@ -24,8 +24,9 @@ Srcs0 == <<
   [id |-> "2", name |-> "narrow", shared |-> FALSE, fields |-> [x |-> A("string", FALSE)], vals |-> [x |-> V(2)]],
   [id |-> "1", name |-> "wide", shared |-> FALSE,
    \* (w: a nullable attribute the collection does not know, holding nil)
-   fields |-> [x |-> A("string", FALSE), y |-> A("bool", FALSE), q |-> R(FALSE, "tt"), w |-> A("int", TRUE)],
-   vals |-> [x |-> V(1), y |-> V(1), q |-> Ids(<<"b">>), w |-> NilV]],
+   \* (... and two to-many relationships that both hold ids: one the collection knows, one it does not)
+   fields |-> [x |-> A("string", FALSE), y |-> A("bool", FALSE), q |-> R(FALSE, "tt"), w |-> A("int", TRUE), m |-> R(FALSE, "tt")],
+   vals |-> [x |-> V(1), y |-> V(1), q |-> Ids(<<"b">>), w |-> NilV, m |-> Ids(<<"c", "a">>)]],
   [id |-> "3", name |-> "conflict", shared |-> FALSE,
    fields |-> [x |-> A("int", FALSE), n |-> A("int", FALSE), r |-> R(FALSE, "tt")],
    vals |-> [x |-> V(1), n |-> V(1), r |-> Ids(<<"a">>)]],
